@@ -495,6 +495,14 @@ fn engine_faults(args: &Args) -> i32 {
             }
         }
     }
+    if part == "all" || part == "drop" {
+        for site in (0..faults::DROP_SITES).filter(|s| sel(*s)) {
+            for k in 1..=4 {
+                run(faults::drop_panics(site, k, &mut st), format!("drop site={} k={}", site, k), &mut nviol);
+            }
+        }
+        run(faults::nodrop_cases(&mut st), "nodrop".to_string(), &mut nviol);
+    }
     if (part == "all" || part == "alloc") && shadow::active() {
         for site in 0..faults::ALLOC_SITES {
             if !run(
@@ -511,6 +519,8 @@ fn engine_faults(args: &Args) -> i32 {
         + st.counts.get("faults.clone.runs")
         + st.counts.get("faults.closure.runs")
         + st.counts.get("faults.cmp.runs")
+        + st.counts.get("faults.drop.runs")
+        + st.counts.get("faults.nodrop.runs")
         + st.counts.get("faults.alloc.aborted-via-alloc-error")
         + st.counts.get("faults.alloc.no-more-allocations");
     st.counts.add("faults.injected_runs", total);
